@@ -45,6 +45,7 @@ def worker_init(tier, seed):
 
 def extra_family():
     X, Y, C = K.X, K.Y, K.C
+    sqx = ("bin", "*", X, X)
     v, w = K.V3, K.W3
     sx = ("vexpr", [("un", "sin", X), Y, K.Z])
     sq = ("vexpr", [("bin", "*", X, X), Y, ("num", 1.0)])
@@ -100,6 +101,22 @@ def extra_family():
         ("vsum", ("matvec", [[1.0, 2.0, 3.0], [0.0, 1.0, ("sym", "a")]], v)),
         ("dot", v, ("matvec", [[1.0, 2.0, 3.0], [0.0, 1.0, 0.0], [1.0, 1.0, 1.0]], v)),
     ]
+    # containers whose ELEMENTS have different degrees, the highest one first / last / in the middle (an aggregate must
+    # report the maximum, not the degree of the element it happened to look at last)
+    A2 = ("mat", "A", 2, 2)
+    for ex in ([[2.0, 2.0], [1.0, 1.0]], [[1.0, 1.0], [2.0, 2.0]], [[3.0, 1.0], [1.0, 1.0]], [[1.0, 1.0], [1.0, 3.0]], [[1.0, 0.5], [1.0, 1.0]]):
+        out.append(("msum", ("mbin", "**", A2, ("arr2", ex))))
+        out.append(("bin", "-", ("bin", "*", ("num", 3.0), ("msum", ("mbin", "**", A2, ("arr2", ex)))), ("num", 1.0)))
+    for rows in ([[X, 1.0], [1.0, 1.0]], [[1.0, 1.0], [1.0, X]], [[("un", "sin", X), 1.0], [1.0, 1.0]], [[1.0, ("bin", "*", X, Y)], [2.0, 1.0]]):
+        out.append(("msum", ("mbin", "*", A2, ("elst2", rows))))
+        out.append(("msum", ("mbin", "+", ("mbin", "*", A2, ("elst2", rows)), ("sc", 1.0))))
+    for ex in ([2.0, 1.0, 1.0], [1.0, 2.0, 1.0], [1.0, 1.0, 2.0], [1.0, 1.0, 0.5]):
+        out.append(("vsum", ("vbin", "**", ("vbin", "+", v, ("sc", 0.0)), ("arr", ex))))
+    for els in ([sqx, Y], [Y, sqx], [("un", "sin", X), Y], [Y, ("un", "sin", X)], [Y, sqx, X]):
+        out.append(("vsum", ("vexpr", els)))
+        out.append(("norm", ("vexpr", els), 1))
+        out.append(("lincomb", [1.0, 2.0, 3.0][:len(els)], ("vexpr", els)))
+        out.append(("dot", ("vexpr", els), ("vexpr", [("num", 1.0)] * 0 + [X] * len(els))))
     return out
 
 
